@@ -231,16 +231,73 @@ def run(ctx, chk):
               "memory-model", "memory model lifting changed", WC)
     chk.check(R2, "types: context.types.unwrap()" in txt and "constants: context.constants.unwrap()" in txt and "ops: context.ops.unwrap()" in txt and
               re.search(r"functions(: functions)?\b", txt) is not None, "storages-handed-over", "module fields changed", WC)
-    # LiftStorage: id -> token map
-    ls = ctx.rspirv.fn("rspirv::lift::storage", "append_id", "LiftStorage", False)
-    t = [show_stmt(s) for s in ls["body"][1]]
-    chk.check(R2, t == ["let (token, entry) = self.append(id, value);", "entry.insert(token);", "token"], "LiftStorage::append_id", "is %s" % t, "rspirv/lift/storage.rs")
-    lt = ctx.rspirv.fn("rspirv::lift::storage", "lookup_token", "LiftStorage", False)
-    chk.check(R2, [show_stmt(s) for s in lt["body"][1]] == ["self.lookup[&id]"], "LiftStorage::lookup_token", "is %s" % [show_stmt(s) for s in lt["body"][1]], "rspirv/lift/storage.rs")
-    la = ctx.rspirv.fn("rspirv::lift::storage", "append", "LiftStorage", False)
-    ta = show(la["body"])
-    chk.check(R2, "let token = self.values.append(value);" in ta and "match self.lookup.entry(id)" in ta and "Entry::Vacant(e) => (token, e)" in ta, "LiftStorage::append",
-              "is %s" % ta[:200], "rspirv/lift/storage.rs")
+    # LiftStorage: id -> token map (symbolic evaluation)
+    from ..symeval import SymEval, Hooks, NONE, Panic as SPanic
+
+    class LH(Hooks):
+        def __init__(self, vacant=True):
+            self.vacant = vacant
+            self.events = []
+
+        def path(self, p):
+            return ("self",) if p == "self" else NotImplemented
+
+        def field(self, base, name, e):
+            if base == ("self",) and name in ("values", "lookup"):
+                return (name,)
+            return NotImplemented
+
+        def index(self, base, idx, e):
+            if base == ("lookup",):
+                return ("lookup_at", idx)
+            if base == ("values",):
+                return ("value_at", idx)
+            return NotImplemented
+
+        def mcall(self, recv, m, args, e, ev):
+            if recv == ("values",) and m == "append" and len(args) == 1:
+                self.events.append(("values.append", args[0]))
+                return ("sym", "TOKEN")
+            if recv == ("lookup",) and m == "entry" and len(args) == 1:
+                return ("enum", "Entry::Vacant" if self.vacant else "Entry::Occupied", [("entry_for", args[0])])
+            if recv == ("self",) and m == "append" and len(args) == 2:
+                self.events.append(("self.append", args[0], args[1]))
+                return ("tuple", [("sym", "TOKEN"), ("entry_for", args[0])])
+            if isinstance(recv, tuple) and recv[0] == "entry_for" and m == "insert" and len(args) == 1:
+                self.events.append(("entry.insert", recv[1], args[0]))
+                return ("unit",)
+            return NotImplemented
+
+    LS = "rspirv::lift::storage"
+    la = ctx.rspirv.fn(LS, "append", "LiftStorage", False)
+    ps = [p_[0] for p_ in la["sig"]["params"] if p_[0] != "self"]
+    for vacant in (True, False):
+        h = LH(vacant)
+        try:
+            r = SymEval(h, "LiftStorage::append").run(la, {ps[0]: ("sym", "ID"), ps[1]: ("sym", "VALUE")})
+            res = ("value", r)
+        except SPanic as x:
+            res = ("panic",)
+        except Anchor as ex:
+            res = ("not analysable", str(ex))
+        want = ("value", ("tuple", [("sym", "TOKEN"), ("entry_for", ("sym", "ID"))])) if vacant else ("panic",)
+        chk.check(R2, res == want and h.events == [("values.append", ("sym", "VALUE"))], "LiftStorage::append(id %s)" % ("unused" if vacant else "already used"),
+                  "yields %s with effects %s" % (res, h.events), "rspirv/lift/storage.rs")
+    ls = ctx.rspirv.fn(LS, "append_id", "LiftStorage", False)
+    ps = [p_[0] for p_ in ls["sig"]["params"] if p_[0] != "self"]
+    h = LH()
+    try:
+        r = SymEval(h, "LiftStorage::append_id").run(ls, {ps[0]: ("sym", "ID"), ps[1]: ("sym", "VALUE")})
+        good = r == ("sym", "TOKEN") and h.events == [("self.append", ("sym", "ID"), ("sym", "VALUE")), ("entry.insert", ("sym", "ID"), ("sym", "TOKEN"))]
+        chk.check(R2, good, "LiftStorage::append_id", "returns %s with effects %s" % (r, h.events), "rspirv/lift/storage.rs")
+    except Anchor as ex:
+        chk.bad(R2, "LiftStorage::append_id", "not analysable: %s" % ex, "rspirv/lift/storage.rs")
+    lt = ctx.rspirv.fn(LS, "lookup_token", "LiftStorage", False)
+    try:
+        r = SymEval(LH(), "LiftStorage::lookup_token").run(lt, {lt["sig"]["params"][1][0]: ("sym", "ID")})
+        chk.check(R2, r == ("lookup_at", ("sym", "ID")), "LiftStorage::lookup_token", "yields %s" % (r,), "rspirv/lift/storage.rs")
+    except Anchor as ex:
+        chk.bad(R2, "LiftStorage::lookup_token", "not analysable: %s" % ex, "rspirv/lift/storage.rs")
     chk.analysed.update({"lift_arms": narms, "lifted_fields": nfields})
 
 
